@@ -11,7 +11,8 @@ PROP = {'counts': {'quick': 48, 'thorough': 2000},
          'exactly the surviving lengths. Oracle: recovered state = state after m writes, acknowledged <= m '
          '<= issued with synchronous logging (0 <= m otherwise), batches whole; after the extra writes and a '
          'clean reopen = prefix(m) + those writes. non-trivial = at least one armed site was hit and >= 3 '
-         'writes',
+         'writes'
+         ' Added later: fragment-boundary crash family (the log file ends exactly between two fragments; recovery, more writes, clean reopen) and Engine.retain with C02_retention_refuted for finding D20.',
  'assumptions': ['process stop, not power loss: bytes handed to the OS by write() survive; fsync ordering, '
                  'lost renames and torn pages are outside the model (DESIGN.md section 8)'],
  'partial': 'crash points are the hook sites (between system calls), not arbitrary instructions; the '
